@@ -901,7 +901,7 @@ func runSignal(c *lib.Ctx, sc sigScenario, n int) {
 			c.Violation("C16/callback-missing/restart-failed/sigusr1", fmt.Sprintf("%s: generation %d ran restart-failed %d times, want %d", sc.Name, lg, got, n), wit)
 		}
 	}
-	if !immediate && !forced && sc.Signals[0] == "TERM" && !sc.Parallel && res.Code != 0 {
+	if !immediate && !forced && sc.Signals[0] == "TERM" && !sc.Parallel && res.Code != 0 && res.Code != 66 { // 66: the race detector spoke; that report is judged by CheckRaces
 		c.Violation("C16/sigterm-exit-status", fmt.Sprintf("%s: exit status %d, want 0", sc.Name, res.Code), wit)
 	}
 	c.SampleTag("signal", 2, map[string]interface{}{"scenario": sc, "exit": res.Code, "events": len(evs)})
@@ -955,9 +955,32 @@ func procChild(args []string) int {
 		fmt.Fprintln(os.Stderr, "start:", err)
 		return 3
 	}
+	// every server that got a listener must have entered its accept loop before
+	// the next operation: a server stopped before it began serving releases its
+	// port late (harness servers; not what is being judged here)
+	waitServing := func() {
+		for i := 0; i < 10000; i++ {
+			evs := traceFrom(0)
+			have, want := 0, 0
+			for _, e := range evs {
+				switch e.Kind {
+				case "listen", "inherit":
+					want++
+				case "serve-begin":
+					have++
+				}
+			}
+			if have >= want {
+				return
+			}
+			time.Sleep(time.Millisecond)
+		}
+	}
+	waitServing()
 	gen := 1
 	for _, r := range in.Scenario.Reloads {
 		gen++
+		waitServing()
 		procMu.Lock()
 		procNext = mk(gen, r == "fail")
 		procMu.Unlock()
@@ -975,6 +998,7 @@ func procChild(args []string) int {
 		fmt.Fprintf(os.Stderr, "RELOAD %s gen %d log:\n%s\n", r, gen, logs)
 		time.Sleep(10 * time.Millisecond)
 	}
+	waitServing()
 	if in.Scenario.Overlap == "stop-first" {
 		// two more healthy instances; while the shutdown callbacks of the first
 		// one (they take a moment) are running, the first instance is stopped
